@@ -1113,6 +1113,11 @@ impl<T: Read + Seek> Read for BlocksToFileReader<'_, T> {
                             self.move_to_next_block()?;
                             return self.read(into);
                         }
+                        if length == 0 {
+                            // Empty block: it holds no data, and returning 0
+                            // here would wrongly signal the end of the file
+                            return self.read(into);
+                        }
                         let count = self.src.by_ref().take(length).read(into)?;
                         let length_usize = usize::try_from(length).map_err(|_| {
                             std::io::Error::new(
